@@ -60,6 +60,13 @@ const NUM_LANES: usize = 1024;
 /// Number of lanes filled by a single 32-byte SHA-256 output.
 const LANES_PER_BLOCK: usize = 16;
 
+/// Verification hook: (number of lanes, lanes per hash block).
+#[cfg(alpenglow_verif)]
+#[must_use]
+pub const fn verif_lthash_params() -> (usize, usize) {
+    (NUM_LANES, LANES_PER_BLOCK)
+}
+
 /// Compact wire-format commitment to the contents of an execution state.
 ///
 /// This is the value that crosses from the execution engine into consensus,
